@@ -4,6 +4,10 @@
  *                                  ok nali=<n> nprim= nalias= keys=<hexkey>:<roff>:<doff>:<L>,... full=1     | die
  *   aget key=<hex>                 the tool's onefetch() with the index open: esl_msafile_PositionByKey + regurgitate_one_stockholm_entry
  *                                  ok hex=<bytes written> | enotfound | fatal (the tool ended the process)
+ *   toolcmd mode=index|one|sub|list|sublist fmt=<name> B=<n> [key=<hex>] [s= e=] [r=1] [n=<hex newname>] [text=<hex key/GDF file>]
+ *                                  the REAL main() of esl-sfetch in a child process on the current file (--informat <fmt>; --index | <key> |
+ *                                  -c s..e [-r] [-n new] <key> | [-r] [-n new] <key> | -f <keyfile> | -C -f <gdffile>), its standard output captured:
+ *                                  index: ok nprim= nalias= fast= bpl= rpl=  (read back from the .ssi file the tool wrote)   others: ok hex=<stdout>   | die
  *   ascan key=<hex>                the sequential search of onefetch() without an index (esl_msafile_Read until name or accession matches)
  *                                  ok off=<msa->offset> name= acc= | notfound | readfail
  */
@@ -124,12 +128,76 @@ static void op_ascan(void)
   free(k);
 }
 
+static void op_toolcmd(void)
+{
+  const char *mode = h_arg("mode") ? h_arg("mode") : "one"; char *argv[16]; int argc = 0; char coords[64]; pid_t pid; int wst = 0;
+  int64_t kn = 0, nn = 0, tn = 0; char *k = NULL, *newname = NULL; unsigned char *txt = NULL; FILE *fp; long on; char *text; char ssiname[80];
+  static char fmtbuf[32];
+  snprintf(fmtbuf, sizeof(fmtbuf), "%s", h_arg("fmt") ? h_arg("fmt") : "fasta");
+  esl_verif_readbufsize = (int) h_argi("B", 4096);
+  if (h_arg("key"))  k = (char *) h_unhex(h_arg("key"), &kn);
+  if (h_arg("n"))    newname = (char *) h_unhex(h_arg("n"), &nn);
+  if (h_arg("text")) { txt = h_unhex(h_arg("text"), &tn); fp = fopen("t.keys", "wb"); fwrite(txt, 1, tn, fp); fclose(fp); free(txt); }
+  argv[argc++] = "esl-sfetch"; argv[argc++] = "--informat"; argv[argc++] = fmtbuf;
+  if (!strcmp(mode, "index")) { argv[argc++] = "--index"; argv[argc++] = fname; }
+  else if (!strcmp(mode, "list"))    { argv[argc++] = "-f"; argv[argc++] = fname; argv[argc++] = "t.keys"; }
+  else if (!strcmp(mode, "sublist")) { argv[argc++] = "-C"; argv[argc++] = "-f"; argv[argc++] = fname; argv[argc++] = "t.keys"; }
+  else {
+    if (h_argi("r", 0)) argv[argc++] = "-r";
+    if (newname) { argv[argc++] = "-n"; argv[argc++] = newname; }
+    if (!strcmp(mode, "sub")) {
+      if (h_argi("e", 0) == 0 && h_argi("dots", 1)) snprintf(coords, sizeof(coords), "%" PRId64 "..", h_argi("s", 1));      /* -c 23.. = to the end */
+      else snprintf(coords, sizeof(coords), "%" PRId64 "%s%" PRId64, h_argi("s", 1), h_argi("sep", 0) ? "/" : "..", h_argi("e", 0));
+      argv[argc++] = "-c"; argv[argc++] = coords;
+    }
+    argv[argc++] = fname; argv[argc++] = k ? k : "";
+  }
+  argv[argc] = NULL;
+  remove("t.tout");
+  fflush(stdout);
+  pid = fork();
+  if (pid < 0) { h_out("fork-failed"); return; }
+  if (pid == 0) {
+    int dn = open("/dev/null", O_WRONLY), rc; dup2(dn, 2);
+    if (freopen("t.tout", "wb", stdout) == NULL) _exit(3);
+    rc = sfetch_main(argc, argv);               /* esl_fatal() / cmdline_failure(): exit(1) */
+    fflush(stdout);
+    _exit(rc);
+  }
+  waitpid(pid, &wst, 0);
+  free(k); free(newname); remove("t.keys");
+  if (!WIFEXITED(wst) || WEXITSTATUS(wst) == 99 || WEXITSTATUS(wst) == 98) { h_out("fault child status=%d", wst); return; }   /* signal, ASan, UBSan */
+  if (WEXITSTATUS(wst) != 0) { h_out("die"); return; }
+  if (!strcmp(mode, "index")) {
+    ESL_SSI *ssi = NULL; int fast;
+    snprintf(ssiname, sizeof(ssiname), "%s.ssi", fname);
+    if (esl_ssi_Open(ssiname, &ssi) != eslOK) { h_out("index-open-failed"); return; }
+    fast = (ssi->nfiles > 0 && (ssi->fileflags[0] & eslSSI_FASTSUBSEQ)) ? 1 : 0;
+    h_out("ok nprim=%" PRIu64 " nalias=%" PRIu64 " fast=%d bpl=%" PRIu32 " rpl=%" PRIu32, (uint64_t) ssi->nprimary, (uint64_t) ssi->nsecondary, fast,
+          fast ? ssi->bpl[0] : 0, fast ? ssi->rpl[0] : 0);
+    esl_ssi_Close(ssi);
+    return;
+  }
+  fp = fopen("t.tout", "rb");
+  if (!fp) { h_out("no-output"); return; }
+  fseek(fp, 0, SEEK_END); on = ftell(fp); rewind(fp); text = malloc(on + 1);
+  if (fread(text, 1, on, fp) != (size_t) on) on = 0;
+  fclose(fp); remove("t.tout");
+  h_out("ok hex=%s", on ? h_hex(text, on) : "-");
+  free(text);
+}
+
 static void h_op(void)
 {
   const char *op = h_words[0];
   if      (!strcmp(op, "adb"))   op_adb();
   else if (!strcmp(op, "aget"))  op_aget();
   else if (!strcmp(op, "ascan")) op_ascan();
+  else if (!strcmp(op, "toolcmd")) op_toolcmd();
+  else if (!strcmp(op, "file")) {          /* a new file: an index the tool wrote for the previous file of that name must not survive */
+    char ssiname[96]; snprintf(ssiname, sizeof(ssiname), "t.%s.ssi", h_arg("ext") ? h_arg("ext") : "fa"); remove(ssiname);
+    sqio_h_op();
+  }
   else sqio_h_op();
 }
 
